@@ -739,6 +739,10 @@ func TestShapes(t *testing.T) {
 	}
 	vals := []ir.Value{ir.Bool(true), ir.Bool(false), ir.Long(0), ir.Long(-1), ir.Long(9223372036854775807), ir.Long(-9223372036854775808), ir.Str(""), ir.Str("a\"b\\c\né \U0001F600"), ir.Str("<>&"),
 		ir.Ent("T0", "a"), ir.Ent("A::B::C", ""), ir.Ent("T0", "\x00\"'"), ir.Set(), ir.Set(ir.Long(1), ir.Str("1"), ir.Bool(true)), ir.Set(ir.Set(), ir.Rec()), ir.Rec(), ir.Rec(ir.F("", ir.Long(1)), ir.F("a b", ir.Str("x")), ir.F("__entity", ir.Long(1)), ir.F("__extn", ir.Str("s"))),
+		// record keys that differ from the escape keys only in letter case, holding records shaped like an escape's payload
+		ir.Rec(ir.F("__Entity", ir.Rec(ir.F("id", ir.Str("alice")), ir.F("type", ir.Str("User"))))), ir.Rec(ir.F("__ENTITY", ir.Rec(ir.F("id", ir.Str("a")), ir.F("type", ir.Str("T0")))), ir.F("x", ir.Long(1))),
+		ir.Rec(ir.F("__Extn", ir.Rec(ir.F("arg", ir.Str("1.5")), ir.F("fn", ir.Str("decimal"))))), ir.Rec(ir.F("__EXTN", ir.Rec(ir.F("arg", ir.Str("10.0.0.1")), ir.F("fn", ir.Str("ip"))))),
+		ir.Set(ir.Rec(ir.F("__entitY", ir.Rec(ir.F("id", ir.Str("a")), ir.F("type", ir.Str("T0")))))),
 		ir.Rec(ir.F("e", ir.Ent("T0", "a")), ir.F("d", ir.Decimal(-15000)), ir.F("s", ir.Set(ir.IP([]byte{10, 0, 0, 1}, 24)))), ir.Decimal(0), ir.Decimal(-9223372036854775808), ir.Decimal(9223372036854775807), ir.Decimal(12345),
 		ir.IP([]byte{0, 0, 0, 0}, 0), ir.IP([]byte{255, 255, 255, 255}, 32), ir.IP(make([]byte, 16), 128), ir.IP([]byte{0x20, 1, 0xd, 0xb8, 0, 0, 0, 0, 0, 0, 0, 0, 0, 0, 0, 1}, 64),
 		ir.Datetime(0), ir.Datetime(-1), ir.Datetime(253402300800000), ir.Datetime(9223372036854775807), ir.Duration(0), ir.Duration(-9223372036854775808), ir.Duration(9223372036854775807), ir.Duration(90061001)}
